@@ -61,7 +61,11 @@ def gen_sections(r, kind):
       if r.random() < 0.8:
         body.append('%s = %s' % (r.choice(['aggregationMethod', 'aggregationmethod']), r.choice(METHODS)))
     r.shuffle(body)
-    secs.append('[%s_%d]\n%s\n' % (kind, i, '\n'.join(body)))
+    # section names are free text, including the one Python's ConfigParser treats specially
+    sname = '%s_%d' % (kind, i) if r.random() < 0.85 else r.choice(['DEFAULT', 'default', 'Default', 'general', 'DEFAULT_%d' % i])
+    if any(x.startswith('[%s]' % sname) for x in secs):
+      sname = '%s_%d' % (kind, i)
+    secs.append('[%s]\n%s\n' % (sname, '\n'.join(body)))
   return secs
 
 
